@@ -78,6 +78,19 @@ Example C19_nonvacuous :
     [mkBind (IKey 0 0) [(9, MDeltaScale)] []; mkBind (IMotion 0) [(7, MDeltaScale); (9, MDeltaScale)] []].
 Proof. split; reflexivity. Qed.
 
+(* ---- app stage: the executable judgement of coq/Check is sound for the model on every scenario of the profile, and transfers
+   to every trace that agrees with the model's run ---- *)
+From BEI Require Check.C19c Check.C19m Proofs.JudgeC19P.
+Theorem C19_app_judgement_sound : forall c, JudgeC19P.profile_C19b c = true -> C19c.ok (c, JudgeC19P.model_trace c) = 0%Z.
+Proof. exact JudgeC19P.C19_app_judgement_sound. Qed.
+
+Theorem C19_app_judgement_transfer : forall c t, JudgeC19P.profile_C19b c = true -> C19c.agree (c, t) = true -> C19c.ok (c, t) = 0%Z.
+Proof. exact JudgeC19P.C19_app_judgement_transfer. Qed.
+
+Theorem C19_routes_judgement_sound : forall c, JudgeC19P.profile_C19mb c = true /\ JudgeC19P.same_scenario c -> C19m.ok_m (c, JudgeC19P.model_m c) = 0%Z.
+Proof. exact JudgeC19P.C19m_app_judgement_sound. Qed.
+
+
 Print Assumptions C19_tuple.
 Print Assumptions C19_nesting_irrelevant.
 Print Assumptions C19_tuple_is_its_leaves.
@@ -96,3 +109,6 @@ Print Assumptions C19_cardinal_expansion.
 Print Assumptions C19_bidirectional.
 Print Assumptions C19_stick.
 Print Assumptions C19_builtin_sets.
+Print Assumptions C19_app_judgement_sound.
+Print Assumptions C19_app_judgement_transfer.
+Print Assumptions C19_routes_judgement_sound.
